@@ -237,14 +237,17 @@ SendF(s, i) ==
     LET me == Cur(s, i)
         k1 == s.k + 1
         sc == s.cs.script
-        hit == sc.at = k1
+        \* scripts act on arrival number k - or ("rowmod", for runs with several instances, where arrival numbers mean
+        \* nothing) on the CONTENT of the request: the data-source row rendered into the URI has parity sc.at
+        hit == IF sc.kind = "rowmod" THEN me.pend.at = "uri" /\ me.pend.val.t = "r" /\ me.pend.val.n % 2 = sc.at
+               ELSE sc.at = k1
         entry == [req |-> Step(s, i).name, val |-> me.pend.val, at |-> me.pend.at, gap |-> me.lastSleep]
         s1 == [s EXCEPT !.k = k1, !.log = Append(@, entry)]
     \* no response at all (status line cut / connection closed after the request was read, with zero response bytes):
     \* the step fails, it is NOT sent again - the target sees it exactly once
     IN IF hit /\ sc.kind \in {"transport", "eof"} THEN FailF(s1, i, 0)
        ELSE [s1 EXCEPT !.inst[i].pc = "post",
-                       !.inst[i].pend.status = IF hit /\ sc.kind = "status" THEN (IF IsGrpc(s) THEN 404 ELSE 418) ELSE 200,
+                       !.inst[i].pend.status = IF hit /\ sc.kind \in {"status", "rowmod"} THEN (IF IsGrpc(s) THEN 404 ELSE 418) ELSE 200,
                        !.inst[i].pend.k = k1,
                        \* "trunc": status and headers arrive, the body ends before its Content-Length
                        !.inst[i].pend.trunc = (hit /\ sc.kind = "trunc")]
